@@ -1,3 +1,17 @@
+mod c23;
+mod c48;
+mod c50;
+mod c51;
+mod c54;
+mod c55;
+
 fn main() {
-    vcore::runner::main(&[])
+    vcore::runner::main(&[
+        ("C23", c23::run),
+        ("C48", c48::run),
+        ("C50", c50::run),
+        ("C51", c51::run),
+        ("C54", c54::run),
+        ("C55", c55::run),
+    ])
 }
